@@ -33,3 +33,22 @@ package graph
 //@   props C20
 //@   ensures result <==> ret(assertNodeAnnFreshness) != nil
 //@   site call assertNodeAnnFreshness: assert arg(node) == node && arg(msgTimestamp) == timestamp
+//@
+//@ func (b *Builder) addNode
+//@   props C20
+//@   site call AddNode: assert ret(assertNodeAnnFreshness) == nil && arg(2) == node
+//@   site call assertNodeAnnFreshness: assert arg(2) == node.PubKeyBytes
+//@   ensures result == nil ==> ret(assertNodeAnnFreshness) == nil && ret(AddNode) == nil
+//@
+//@ func (b *Builder) addEdge
+//@   props C20
+//@   site call AddChannelEdge: assert !retn(HasChannelEdge, 0) && !retn(HasChannelEdge, 1) && arg(2) == edge
+//@   site call HasChannelEdge: assert arg(3) == edge.ChannelID
+//@
+//@ func (b *Builder) updateEdge
+//@   props C20
+//@   site call UpdateEdgePolicy: assert retn(HasV1ChannelEdge, 2) && arg(2) == policy &&
+//@        (policy.ChannelFlags % 2 == 0 ==> ret(Before, 0)) && (policy.ChannelFlags % 2 == 1 ==> ret(Before, 1))
+//@   site call HasV1ChannelEdge: assert arg(2) == policy.ChannelID
+//@   site call Before nth 0: assert arg(0) == retn(HasV1ChannelEdge, 0) && arg(1) == policy.LastUpdate
+//@   site call Before nth 1: assert arg(0) == retn(HasV1ChannelEdge, 1) && arg(1) == policy.LastUpdate
